@@ -30,7 +30,7 @@ func init() {
 		Assumptions: []string{"root", "schedules the Go runtime does not produce in the run are not covered; the race detector only sees executed paths", "built with -race: a race report terminates the child process and is reported with its log"},
 		Cases: func(tier string) int {
 			if tier == "thorough" {
-				return 40 * 24
+				return 80 * 30
 			}
 			return 6 * 12
 		},
@@ -105,7 +105,7 @@ func c08Run(c *core.Ctx) *core.Result {
 	}
 	perCase := 12
 	if c.Thorough() {
-		perCase = 24
+		perCase = 30
 	}
 	caseNo := c.Index / perCase
 	sched := c.Index % perCase
